@@ -21,7 +21,9 @@ def gens(rng):
     def r_dec():
         digits = rng.randint(1, 15)
         n = rng.randint(0, 10 ** digits - 1)
-        return Decimal((rng.choice([0, 1]), tuple(int(c) for c in str(n)), rng.randint(-digits, 3)))
+        # large positive exponents included (beyond the float range too); tiny ones are the listed finding C14-decimal-underflow
+        ex = rng.randint(-digits, 3) if rng.random() < 0.85 else rng.choice([20, 100, 300, 308, 309, 400])
+        return Decimal((rng.choice([0, 1]), tuple(int(c) for c in str(n)), ex))
 
     def r_tz():
         k = rng.random()
@@ -29,6 +31,10 @@ def gens(rng):
             return None
         if k < 0.45:
             return timezone.utc
+        if k < 0.55:
+            # offsets that are not a whole number of minutes (local mean time zones): isoformat writes +HH:MM:SS[.ffffff]
+            return timezone(rng.choice([timedelta(minutes=19, seconds=32), -timedelta(minutes=25, seconds=21), timedelta(seconds=1),
+                                        -timedelta(hours=3, seconds=7), timedelta(hours=2, microseconds=250000)]))
         return timezone(timedelta(minutes=rng.choice([-720, -330, -90, -1, 1, 30, 60, 345, 840, rng.randint(-1439, 1439)])))
     return {
         "int": lambda: rng.choice([0, 1, -1, 2 ** 31, -2 ** 40, 10 ** 15, 9007199254740991, rng.randint(-10 ** 9, 10 ** 9)]),
